@@ -63,6 +63,9 @@ CHECKS = {
  "C19": ("dbsim", "exploration", "deterministic simulation: restart through SQL dump at seeded points; reloaded twin vs reference twin",
          "save_sql_dump -> load_sql_dump as a generated operation inside histories; tables, columns (name, type) and row multisets must agree.",
          "Sampling. The input-sweep half of the property (all strings / special floats) is generation rather than simulation and is only partly covered (adversarial string pool).", "6/C19"),
+ "C20": ("filesim", "fault_enumeration", "deterministic fault injection over stored images: truncation at every offset, bit flips, boundary-value overwrites, block zero/dup/swap, garbage, arbitrary bytes; loaders run in worker subprocesses under catch_unwind, an allocation-limiting GlobalAlloc and a hang watchdog",
+         "Valid images in all four formats come from seeded histories on the real engine; every damaged image is handed to every applicable loader (path-based API, auto-detection with and without extension, and the Read-generic binary codec over a reader with short reads and EINTR). Oracle: Ok or Err only - no panic, abort, hang (10 s) or single allocation above 64 MiB + 64 x file length.",
+         "Truncation is exhaustive for images <= 8 KiB (all of them in practice); the other fault kinds are sampled. Decompression bombs are not constructed deliberately.", "6/C20"),
  "C24": ("dbsim", "exploration", "deterministic simulation: every statement of seeded histories (incl. faulty and extreme-valued ones) under catch_unwind",
          "Panic monitor over all statements of the general history with extreme integer literals and arithmetic; harness build has overflow checks on, so unchecked arithmetic panics instead of wrapping.",
          "Stateful reading only; the space of all statements is not enumerated.", "6/C24"),
@@ -102,6 +105,8 @@ def main():
             "add_only": True,
         },
         "engines": [
+            {"name": "filesim", "path": "/verif/sim/filesim", "serves_properties": ["C20"],
+             "kind_free_text": "fault injector over persisted database images with subprocess workers (panic/abort/hang/allocation attribution), images generated by the dbsim history generator"},
             {"name": "dbsim", "path": "/verif/sim/dbsim", "serves_properties": sorted(p for p in CHECKS if CHECKS[p][0] == "dbsim"),
              "kind_free_text": "single-process deterministic simulator over the real parser/catalog/storage/executor: seeded swarm configuration, seeded operation histories with faults inside statements, aborts and restarts; twin instances; per-step oracles; ddmin minimisation; explicit replay files"},
         ],
